@@ -43,7 +43,9 @@ var (
 const markOpt4 = 224   // private-use DHCPv4 option carrying the markers
 const markOpt6 = 65001 // private DHCPv6 option carrying the markers
 
-func markers4(r *dhcpv4.DHCPv4) string { return string(r.Options.Get(dhcpv4.GenericOptionCode(markOpt4))) }
+func markers4(r *dhcpv4.DHCPv4) string {
+	return string(r.Options.Get(dhcpv4.GenericOptionCode(markOpt4)))
+}
 func markers6(r dhcpv6.DHCPv6) string {
 	m, ok := r.(*dhcpv6.Message)
 	if !ok {
@@ -423,4 +425,3 @@ func cmpLog(want []invocation, xid uint32) *core.Violation {
 	}
 	return nil
 }
-
